@@ -99,6 +99,9 @@ func runC12(c *Ctx) {
 		if r.Intn(3) == 0 || want == 0 {
 			hl = r.Intn(71)
 		}
+		if want > 0 && r.Intn(12) == 0 {
+			hl = want + 256*(1+r.Intn(3)) // the right length modulo 256
+		}
 		p := cose.HashEnvelopePayload{HashAlgorithm: ha, HashValue: r.Bytes(hl)}
 		if hl == 0 && r.Bool() {
 			p.HashValue = []byte{}
@@ -120,6 +123,17 @@ func runC12(c *Ctx) {
 				h.Protected[int64(260)] = p.Location
 			}
 			placement += "preset-equal,"
+			switch r.Intn(4) {
+			case 0:
+				h.Protected[int64(1)] = int64(kk.Alg) // the signer's algorithm as a plain integer
+				placement += "alg-int64,"
+			case 1:
+				h.Protected[int64(1)] = kk.Alg
+				placement += "alg-typed,"
+			case 2:
+				h.Protected[int(1)] = int(kk.Alg)
+				placement += "alg-int,"
+			}
 		}
 		snap := mon.DeepHash(h.Protected, h.Unprotected, h.RawProtected, h.RawUnprotected, p.HashValue)
 		in := map[string]any{"case": i, "placement": placement, "rawmode": rawMode, "protected": describeHeader(h.Protected), "unprotected": describeHeader(h.Unprotected), "raw_unprotected": hexs(h.RawUnprotected),
@@ -246,7 +260,7 @@ func runC12(c *Ctx) {
 		}
 	}
 	// payload / framing variants on a few placements
-	for variant := 1; variant <= 9; variant++ {
+	for variant := 1; variant <= 13; variant++ {
 		for b := range o258 {
 			vcases = append(vcases, vcase{0, b, 0, 0, variant}, vcase{0, b, 1, 1, variant})
 		}
@@ -292,6 +306,14 @@ func runC12(c *Ctx) {
 			ext, vname = []byte("aad"), "signed-with-external-data"
 		case 9:
 			payload, vname = make([]byte, 47), "len-47"
+		case 10:
+			payload, vname = make([]byte, 32+256), "len-32+256"
+		case 11:
+			payload, vname = make([]byte, 48+256), "len-48+256"
+		case 12:
+			payload, vname = make([]byte, 64+256), "len-64+256"
+		case 13:
+			payload, vname = make([]byte, 32+65536), "len-32+65536"
 		}
 		wm := &gen.WSign1{L: gen.WLayer{ProtMap: prot, Unprot: unprot}, Payload: payload, Tagged: tagged}
 		signed := payload
